@@ -1,5 +1,15 @@
 package l2
 
+import "encoding/json"
+
+// roundTrip normalises an op to what decoding its JSON form gives (numbers as float64).
+func roundTrip(v map[string]any) map[string]any {
+	b, _ := json.Marshal(v)
+	var r map[string]any
+	json.Unmarshal(b, &r)
+	return r
+}
+
 // Exhaustive small-scope histories (thorough tier): after one CALL routed to a
 // callee, every sequence of length ≤ depth over a fixed alphabet of follow-up
 // events (cancel in each mode, final and progressive YIELD, INVOCATION ERROR, a
@@ -25,22 +35,53 @@ func mkJoin(k int, feats map[string][]string) map[string]any {
 		"roles":   roles}
 }
 
-func enumScenarios(depth int) []Scenario {
+func enumScenarios(depth int) []Scenario { return enumScenariosFor("", depth) }
+
+// enumScenariosFor adds, for C06, a Router.Close at the end of every history (with a progressive
+// call whose chunks each arm a long timer), and for C07 a callee that does not read and whose
+// one-slot queue is full.
+func enumScenariosFor(prop string, depth int) []Scenario {
 	cfg := map[string]any{"uri": "r1", "strict": false, "disclose": false, "metaKill": true, "metaModify": false, "metaStrict": false}
 	msg := func(k int, m ...any) map[string]any { return map[string]any{"op": "msg", "s": k, "m": m} }
 	var res []Scenario
-	for _, calleeCancels := range []bool{true, false} {
+	type variant struct {
+		calleeCancels bool
+		progressive   bool // the call is a progressive call invocation with a long router-side timeout
+		stalledCallee bool // the callee stopped reading and its queue (one slot) holds the INVOCATION
+	}
+	variants := []variant{{true, false, false}, {false, false, false}}
+	if prop == "C06" || prop == "C13" || prop == "C02" {
+		variants = append(variants, variant{true, true, false})
+	}
+	if prop == "C07" || prop == "C13" {
+		variants = append(variants, variant{true, false, true})
+	}
+	for _, v := range variants {
 		calleeFeats := []string{"progressive_call_results"}
-		if calleeCancels {
+		if v.calleeCancels {
 			calleeFeats = append(calleeFeats, "call_canceling")
 		}
+		callerFeats := []string{"call_canceling", "progressive_call_results"}
+		callOpts := map[string]any{"receive_progress": true, "timeout": 100}
+		if v.progressive {
+			calleeFeats = append(calleeFeats, "progressive_call_invocations")
+			callerFeats = append(callerFeats, "progressive_call_invocations")
+			callOpts = map[string]any{"receive_progress": true, "timeout": 3600000, "progress": true}
+		}
+		callee := mkJoin(2, map[string][]string{"callee": calleeFeats})
+		if v.stalledCallee {
+			callee["cap"] = 1
+		}
 		setup := []map[string]any{
-			mkJoin(1, map[string][]string{"caller": {"call_canceling", "progressive_call_results"}, "subscriber": {}}),
-			mkJoin(2, map[string][]string{"callee": calleeFeats}),
+			mkJoin(1, map[string][]string{"caller": callerFeats, "subscriber": {}}),
+			callee,
 			mkJoin(3, map[string][]string{"callee": {"call_canceling"}, "caller": {}}),
 			msg(2, 64, 1, map[string]any{}, "p"),
-			msg(1, 48, 1, map[string]any{"receive_progress": true, "timeout": 100}, "p", []any{1}, map[string]any{}),
 		}
+		if v.stalledCallee {
+			setup = append(setup, map[string]any{"op": "stall", "s": 2})
+		}
+		setup = append(setup, msg(1, 48, 1, callOpts, "p", []any{1}, map[string]any{}))
 		alphabet := []map[string]any{
 			msg(1, 49, 1, map[string]any{"mode": "skip"}),
 			msg(1, 49, 1, map[string]any{"mode": "kill"}),
@@ -56,11 +97,22 @@ func enumScenarios(depth int) []Scenario {
 			{"op": "tick", "ms": 99},
 			{"op": "tick", "ms": 1},
 		}
+		if v.progressive {
+			alphabet = append(alphabet,
+				msg(1, 48, 1, map[string]any{"progress": true}, "p", []any{2}, map[string]any{}),
+				msg(1, 48, 1, map[string]any{}, "p", []any{3}, map[string]any{}))
+		}
+		if v.stalledCallee {
+			alphabet = append(alphabet, map[string]any{"op": "resume", "s": 2})
+		}
 		var rec func(prefix []map[string]any, d int)
 		rec = func(prefix []map[string]any, d int) {
 			if len(prefix) > 0 {
 				ops := append(append([]map[string]any{}, setup...), prefix...)
 				ops = append(ops, map[string]any{"op": "snapshot"})
+				if prop == "C06" {
+					ops = append(ops, map[string]any{"op": "close"})
+				}
 				res = append(res, Scenario{ID: 1000000 + len(res), Cfg: cfg, Ops: ops})
 			}
 			if d == 0 {
@@ -88,7 +140,13 @@ func enumShared(depth int) []Scenario {
 	cfg := map[string]any{"uri": "r1", "strict": false, "disclose": false, "metaKill": true, "metaModify": false, "metaStrict": false}
 	msg := func(k int, m ...any) map[string]any { return map[string]any{"op": "msg", "s": k, "m": m} }
 	var res []Scenario
-	for _, policy := range []string{"first", "last", "roundrobin"} {
+	type variant struct {
+		policy   string
+		precalls int // calls made before the enumerated part (moves the round-robin cursor)
+	}
+	variants := []variant{{"first", 0}, {"last", 0}, {"roundrobin", 0}, {"roundrobin", 1}, {"roundrobin", 2}, {"roundrobin", 3}}
+	for _, v := range variants {
+		policy := v.policy
 		callee := map[string][]string{"callee": {"shared_registration"}}
 		setup := []map[string]any{
 			mkJoin(1, callee), mkJoin(2, callee), mkJoin(3, callee),
@@ -96,6 +154,9 @@ func enumShared(depth int) []Scenario {
 			msg(1, 64, 1, map[string]any{"invoke": policy}, "p"),
 			msg(2, 64, 1, map[string]any{"invoke": policy}, "p"),
 			msg(3, 64, 1, map[string]any{"invoke": policy}, "p"),
+		}
+		for i := 0; i < v.precalls; i++ {
+			setup = append(setup, msg(4, 48, 200+i, map[string]any{}, "p", []any{i}, map[string]any{}))
 		}
 		// registration id of "p": 22 meta procedures (metaKill) come first
 		const regID = 23
